@@ -151,6 +151,7 @@ func checkRoundtrip(c Case) error {
 	dir := vk.WorkDir()
 	p := filepath.Join(dir, "x.fasta")
 	defer os.Remove(p)
+	vk.StaleFile(p, 2*len(text)+500)
 	fasta.Write(want, p)
 	if got, err = bounded("Read(Write(x))", func() []fasta.Fasta { return fasta.Read(p) }); err != nil {
 		return err
